@@ -189,6 +189,17 @@ def state_digest(designer, algo):
   out = []
   for ns, k, v in md.all_items():
     out.append([str(ns), k, v if isinstance(v, str) else repr(v)])
+  # ... and the population as the running object holds it: a dump that loses something loses it on both sides of the
+  # comparison, the object in memory does not
+  pop = getattr(designer, '_population', None)
+  for field in ('xs', 'ys', 'cs', 'ages', 'generations', 'ids'):
+    v = getattr(pop, field, None)
+    if v is not None:
+      try:
+        import numpy as np
+        out.append(['<in memory>', field, repr(np.asarray(v).tolist())])
+      except Exception:  # pylint: disable=broad-except
+        pass
   return sorted(out)
 
 
@@ -230,7 +241,9 @@ def run_session(algo, prob, sched, seed, restart=False, perturb=None, feed=None,
         if step == 'CI':
           t.complete(vz.Measurement(), infeasibility_reason='infeasible')
         else:
-          t.complete(vz.Measurement({'m': float((k * 7) % 5), 'k': float((k * 3) % 4)}))
+          # one session in four reports an infinite objective now and then (a legal measurement: C09 carries it, C11 ranks it)
+          inf = seed % 4 == 1 and k % 5 == 3
+          t.complete(vz.Measurement({'m': float('inf') if inf else float((k * 7) % 5), 'k': float('-inf') if inf and k % 2 else float((k * 3) % 4)}))
         done.append(t)
       active = []
       if record is not None:
@@ -474,7 +487,9 @@ def collect(ctx, which):
               long += list(part) + [rng.choice(['CF', 'CR'])]
             chosen.append(tuple(long + ['S2']))
         for k_s, sched in enumerate(chosen):
-          seed = 0 if k_s == 1 else rng.randrange(1, 10 ** 6)      # 0 is a seed like any other
+          # 0 is a seed like any other; seeds = 1 (mod 4) mark the sessions whose completions report infinite objectives
+          # now and then (run_session): the third session of every (algorithm, shape) and every long one
+          seed = 0 if k_s == 1 else rng.randrange(1, 10 ** 5) * 4 + (1 if k_s == 2 or len(sched) > 12 else 2)
           t0 = time.time()
           hist = []
           a, sa, ra = run_session(algo, prob, sched, seed, record=hist)
